@@ -61,11 +61,43 @@ func runC23(c *engine.Ctx) {
 			}
 			return false
 		}
+		// the state chosen into a variable, stored, and the push made under "the stored state is Queued"
+		// (`x.state = choose(...); switch x.state { case Queued: push }`): the guard found on a push
+		queuedGuard := func(p engine.CallInfo, s stateStore) (engine.Cond, bool) {
+			if s.name != "(one of the defined states)" || s.st.Parent() != p.Instr.Parent() || !engine.Before(s.st, p.Instr) {
+				return engine.Cond{}, false
+			}
+			for _, cd := range engine.InstrConds(p.Instr) {
+				e, isEq := cd.AsEq()
+				if !isEq || !e.Equal || cd.If == nil {
+					continue
+				}
+				if k, isK := engine.ConstInt(e.Y); !isK || k != m.states["Queued"] {
+					continue
+				}
+				x := engine.Strip(e.X)
+				same := engine.Strip(engine.ForwardedValue(x)) == engine.LocalValue(s.st.Val) || x == engine.LocalValue(s.st.Val)
+				if fl, _ := engine.LoadedField(x); fl == m.state {
+					if xi, isI := x.(ssa.Instruction); isI && engine.Before(s.st, xi) {
+						same = true
+					}
+				}
+				if same {
+					return cd, true
+				}
+			}
+			return engine.Cond{}, false
+		}
 		// R1 both directions
 		for _, p := range pushes {
 			f := p.Instr.Parent()
 			c.Analysed(engine.FuncName(f))
 			ok := false
+			for _, s := range stores {
+				if _, found := queuedGuard(p, s); found {
+					ok = true
+				}
+			}
 			for _, s := range stores {
 				if s.name != "Queued" || s.st.Parent() != f {
 					continue
@@ -106,6 +138,43 @@ func runC23(c *engine.Ctx) {
 			c.Decide(r1, fmt.Sprintf("%s|state=Queued", engine.FuncName(f)), s.st.Pos(), ok,
 				"every path that marks the entry Queued pushes its task",
 				"the entry is marked Queued on a path that does not push a task: it is reported queued but will never run")
+		}
+
+		for _, s := range stores {
+			if s.name != "(one of the defined states)" {
+				continue
+			}
+			hasQ := false
+			for _, o := range engine.ValueOutcomes(engine.LocalValue(s.st.Val), s.st.Block()) {
+				if k, isK := engine.ConstInt(o.V); isK && k == m.states["Queued"] {
+					hasQ = true
+				}
+			}
+			if !hasQ {
+				continue
+			}
+			// every way on from the store tests the stored state, and the Queued side of the test pushes
+			f := s.st.Parent()
+			ok := false
+			for _, p := range pushes {
+				cd, found := queuedGuard(p, s)
+				if !found {
+					continue
+				}
+				test := cd.If
+				tested, _ := engine.MustReachBeforeReturn(s.st, func(in ssa.Instruction) bool { return in == ssa.Instruction(test) }, nil)
+				side := test.Block().Succs[1]
+				if cd.Pol {
+					side = test.Block().Succs[0]
+				}
+				pushed, _ := engine.MustReachFromBlock(side, isPush, nil)
+				if tested && pushed {
+					ok = true
+				}
+			}
+			c.Decide(r1, fmt.Sprintf("%s|state=Queued (chosen)", engine.FuncName(f)), s.st.Pos(), ok,
+				"every path that marks the entry Queued pushes its task",
+				"the entry can be marked Queued (the state is chosen into a variable) on a path that does not push a task: it is reported queued but will never run")
 		}
 
 		// R2 Running
